@@ -19,7 +19,7 @@ From Galaxy.Base Require Import Strs.
 From Galaxy.Model Require Import Nets Pool Ipam Plugin.
 From Galaxy.Model Require Keys.
 From Galaxy.Proofs Require Import IpamP PluginInv PluginInvL PluginKeyFacts PluginIpamFacts PluginEnvP PluginUnbindP.
-From Galaxy.Proofs Require PluginBindP.
+From Galaxy.Proofs Require Import PluginBindP.
 From Galaxy.Proofs Require Import PluginC10Spec.
 Local Open Scope N_scope.
 
@@ -65,9 +65,9 @@ Lemma cinv_table w w' :
   w_cloud w' = w_cloud w → w_cloudlog w' = w_cloudlog w → w_provider w' = w_provider w → w_pods w' = w_pods w →
   (∀ y, keepish (w_ipam w) (w_ipam w') y ∨
         (w_cloud w !! y = None ∧ ∀ e' k, i_alloc (w_ipam w') !! y = Some e' → e_key e' = Keys.pool_prefix k → e_node e' = [])) →
-  CInv w' ∧ freed_unassigned w w'.
+  CInv w' ∧ freed_unassigned w w' ∧ w_provider w' = w_provider w.
 Proof.
-  intros [HW HL HA HV HP HN] HW' EC EL EP EPo Hy. split; [split|].
+  intros [HW HL HA HV HP HN] HW' EC EL EP EPo Hy. split; [split|split; [|done]].
   - done.
   - unfold log_wf. by rewrite EC, EL.
   - intros x n. rewrite EC. intros Hx. destruct (HA x n Hx) as (e & He & Hn & Hne).
@@ -100,7 +100,7 @@ Proof.
   - destruct (H1 y) as [E1|[N1 K1]]; right; (split; [congruence|done]).
 Qed.
 
-Lemma cinv_grow w w' : CInv w → WInv w' → grow w w' → CInv w' ∧ freed_unassigned w w'.
+Lemma cinv_grow w w' : CInv w → WInv w' → grow w w' → CInv w' ∧ freed_unassigned w w' ∧ w_provider w' = w_provider w.
 Proof.
   intros HC HW' (EC & EL & EP & EPo & Hy). apply cinv_table; try done.
   intros y. destruct (Hy y) as [E|[Hn Hk]]; [left; by apply keepish_eq|]. right. split.
@@ -114,9 +114,9 @@ Lemma cinv_pods w w' :
   w_cloud w' = w_cloud w → w_cloudlog w' = w_cloudlog w → w_provider w' = w_provider w → w_ipam w' = w_ipam w →
   (∀ k p, w_pods w' !! k = Some p → live_bound p →
           ∃ k0 p0, w_pods w !! k0 = Some p0 ∧ live_bound p0 ∧ pd_ips p0 = pd_ips p ∧ pd_node p0 = pd_node p) →
-  CInv w' ∧ freed_unassigned w w'.
+  CInv w' ∧ freed_unassigned w w' ∧ w_provider w' = w_provider w.
 Proof.
-  intros [HW HL HA HV HP HN] HW' EC EL EP EI Hpods. split; [split|].
+  intros [HW HL HA HV HP HN] HW' EC EL EP EI Hpods. split; [split|split; [|done]].
   - done.
   - unfold log_wf. by rewrite EC, EL.
   - intros x n. rewrite EC, EI. apply HA.
@@ -191,9 +191,9 @@ Qed.
 Lemma crel_cinv K w w' :
   CInv w → WInv w' → crel K w w' →
   (∀ k p, w_pods w !! k = Some p → live_bound p → pod_key p ≠ K) →
-  CInv w' ∧ freed_unassigned w w'.
+  CInv w' ∧ freed_unassigned w w' ∧ w_provider w' = w_provider w.
 Proof.
-  intros [HW HL HA HV HP HN] HW' (EPo & EP & C & A & L) Hno. split; [split|].
+  intros [HW HL HA HV HP HN] HW' (EPo & EP & C & A & L) Hno. split; [split|split; [|done]].
   - done.
   - auto.
   - intros x n Hx. destruct (C x) as [Ec|[Hn _]]; [|congruence]. rewrite Ec in Hx.
@@ -334,11 +334,11 @@ Qed.
 Lemma freed_refl w w' : w_ipam w' = w_ipam w → freed_unassigned w w'.
 Proof. intros E x e He Hch. rewrite E, He in Hch. done. Qed.
 
-Lemma cinv_same w : CInv w → CInv w ∧ freed_unassigned w w.
-Proof. intros HC. split; [done|by apply freed_refl]. Qed.
+Lemma cinv_same w : CInv w → CInv w ∧ freed_unassigned w w ∧ w_provider w = w_provider w.
+Proof. intros HC. split_and!; [done|by apply freed_refl|done]. Qed.
 
 Lemma cinv_event w n o oun fl :
-  CInv w → CInv (pstep w (PEvent n o oun fl)).1 ∧ freed_unassigned w (pstep w (PEvent n o oun fl)).1.
+  CInv w → CInv (pstep w (PEvent n o oun fl)).1 ∧ freed_unassigned w (pstep w (PEvent n o oun fl)).1 ∧ w_provider (pstep w (PEvent n o oun fl)).1 = w_provider w.
 Proof.
   intros HC. pose proof (ci_winv w HC) as HW. pose proof (winv_event w n o oun fl HW) as HW'.
   cbn [pstep] in *. destruct (w_queue w !! n) as [q|] eqn:En; [|by apply cinv_same].
@@ -424,7 +424,7 @@ Qed.
 
 Lemma cinv_resync w ip o ocl fl :
   CInv w → k3b_free w ip →
-  CInv (pstep w (PResync ip o ocl fl)).1 ∧ freed_unassigned w (pstep w (PResync ip o ocl fl)).1.
+  CInv (pstep w (PResync ip o ocl fl)).1 ∧ freed_unassigned w (pstep w (PResync ip o ocl fl)).1 ∧ w_provider (pstep w (PResync ip o ocl fl)).1 = w_provider w.
 Proof.
   intros HC Hk3. pose proof (ci_winv w HC) as HW. pose proof (winv_resync w ip o ocl fl HW) as HW'.
   assert ((pstep w (PResync ip o ocl fl)).1 = (resync_section w ip o ocl fl).1) as Efst.
@@ -471,7 +471,7 @@ Qed.
 
 Lemma cinv_api_release w k ip ocl fl :
   CInv w → k = Keys.parse_key (Keys.ko_key k) → k3b_free w ip →
-  CInv (pstep w (PApiRelease k ip ocl fl)).1 ∧ freed_unassigned w (pstep w (PApiRelease k ip ocl fl)).1.
+  CInv (pstep w (PApiRelease k ip ocl fl)).1 ∧ freed_unassigned w (pstep w (PApiRelease k ip ocl fl)).1 ∧ w_provider (pstep w (PApiRelease k ip ocl fl)).1 = w_provider w.
 Proof.
   intros HC Hk Hk3. pose proof (ci_winv w HC) as HW. pose proof (winv_api_release w k ip ocl fl HW Hk) as HW'.
   assert ((pstep w (PApiRelease k ip ocl fl)).1 = (api_release_section w k ip ocl fl).1) as Efst.
@@ -516,7 +516,7 @@ Proof.
   by apply grow_refl.
 Qed.
 
-Lemma cinv_env w e : CInv w → wf_env w e → CInv (env_step w e) ∧ freed_unassigned w (env_step w e).
+Lemma cinv_env w e : CInv w → wf_env w e → CInv (env_step w e) ∧ freed_unassigned w (env_step w e) ∧ w_provider (env_step w e) = w_provider w.
 Proof.
   intros HC Hwf. pose proof (ci_winv w HC) as HW. pose proof (winv_env w e HW Hwf) as HW'.
   destruct e as [p|key|key ph|key|key r|key r|name r|n]; cbn [env_step] in *.
@@ -541,7 +541,7 @@ Proof.
 Qed.
 
 Lemma cinv_sync_pod w key fl :
-  CInv w → CInv (pstep w (PSyncPod key fl)).1 ∧ freed_unassigned w (pstep w (PSyncPod key fl)).1.
+  CInv w → CInv (pstep w (PSyncPod key fl)).1 ∧ freed_unassigned w (pstep w (PSyncPod key fl)).1 ∧ w_provider (pstep w (PSyncPod key fl)).1 = w_provider w.
 Proof.
   intros HC. pose proof (ci_winv w HC) as HW. pose proof (winv_sync_pod w key fl HW) as HW'.
   cbn [pstep] in *. destruct (w_lister w !! key) as [p|] eqn:El; [|by apply cinv_same]. cbn [fst] in *.
@@ -550,7 +550,7 @@ Qed.
 
 (** * Filter *)
 Lemma cinv_filter w key nodes o fl :
-  CInv w → CInv (pstep w (PFilter key nodes o fl)).1 ∧ freed_unassigned w (pstep w (PFilter key nodes o fl)).1.
+  CInv w → CInv (pstep w (PFilter key nodes o fl)).1 ∧ freed_unassigned w (pstep w (PFilter key nodes o fl)).1 ∧ w_provider (pstep w (PFilter key nodes o fl)).1 = w_provider w.
 Proof.
   intros HC. pose proof (ci_winv w HC) as HW. pose proof (PluginBindP.winv_filter w key nodes o fl HW) as HW'.
   cbn [pstep] in *. destruct (w_pods w !! key) as [p|] eqn:Ep; [|by apply cinv_same].
@@ -595,7 +595,7 @@ Qed.
 
 Lemma cinv_configure w conf lf :
   CInv w → keeps_live w conf → keeps_assigned w conf →
-  CInv (pstep w (PIpam (OConfigure conf lf []))).1 ∧ freed_unassigned w (pstep w (PIpam (OConfigure conf lf []))).1.
+  CInv (pstep w (PIpam (OConfigure conf lf []))).1 ∧ freed_unassigned w (pstep w (PIpam (OConfigure conf lf []))).1 ∧ w_provider (pstep w (PIpam (OConfigure conf lf []))).1 = w_provider w.
 Proof.
   intros HC Hkl Hka. pose proof (ci_winv w HC) as HW. pose proof (winv_configure w conf lf HW Hkl) as HW'.
   cbn [pstep] in *. cbn [fst] in *.
@@ -608,7 +608,7 @@ Qed.
 
 Lemma cinv_restart w conf :
   CInv w → keeps_live w conf → keeps_assigned w conf →
-  CInv (pstep w (PRestart conf)).1 ∧ freed_unassigned w (pstep w (PRestart conf)).1.
+  CInv (pstep w (PRestart conf)).1 ∧ freed_unassigned w (pstep w (PRestart conf)).1 ∧ w_provider (pstep w (PRestart conf)).1 = w_provider w.
 Proof.
   intros HC Hkl Hka. pose proof (ci_winv w HC) as HW. pose proof (winv_restart w conf HW Hkl) as HW'.
   cbn [pstep] in *. cbn [fst] in *.
@@ -618,3 +618,361 @@ Proof.
   - intros y e' He'. by apply (restart_no_new _ _ _ _ _ (wi_ipam w HW) E).
   - intros y e He Hconf. by apply (restart_keeps _ _ _ _ _ (wi_ipam w HW) E).
 Qed.
+
+(** * Bind *)
+Definition brel (key node : str) (w w' : world) : Prop :=
+  w_provider w' = w_provider w ∧
+  (∀ y, i_alloc (w_ipam w') !! y = i_alloc (w_ipam w) !! y ∨
+        ∃ e', i_alloc (w_ipam w') !! y = Some e' ∧ e_key e' = key ∧ e_node e' = node ∧
+              ∀ e, i_alloc (w_ipam w) !! y = Some e → e_key e = key) ∧
+  (∀ y, w_cloud w' !! y = w_cloud w !! y ∨ (w_provider w = true ∧ w_cloud w !! y = None ∧ w_cloud w' !! y = Some node)).
+
+Lemma brel_refl key node w : brel key node w w.
+Proof. split_and!; try done; intros y; by left. Qed.
+
+Lemma brel_trans key node w1 w2 w3 : brel key node w1 w2 → brel key node w2 w3 → brel key node w1 w3.
+Proof.
+  intros (P1 & A1 & C1) (P2 & A2 & C2). split_and!; [congruence| |].
+  - intros y. destruct (A2 y) as [E2|(e' & He' & Hk & Hn & Hold)].
+    + rewrite E2. apply A1.
+    + right. exists e'. split_and!; try done. intros e He.
+      destruct (A1 y) as [E1|(e1 & He1 & Hk1 & _ & Hold1)]; [apply Hold; congruence|by apply Hold1].
+  - intros y. destruct (C2 y) as [E2|(Hp & N2 & S3)].
+    + rewrite E2. apply C1.
+    + destruct (C1 y) as [E1|(_ & _ & S2)]; [|congruence]. right. split_and!; [congruence|congruence|done].
+Qed.
+
+Lemma update_attr_ok s key x a e : Inv2 s → i_alloc s !! x = Some e → e_key e = key → (update_attr s key x a false).2 = AOk.
+Proof.
+  intros Hi He Hk. unfold update_attr. rewrite He, Hk, str_eqb_refl. unfold update_both, st_update.
+  destruct (inv2_alloc_store s x e Hi He) as (o & -> & _). done.
+Qed.
+
+(** one iteration of [assign_loop]: the provider call (if any), then the entry of [x] has node [node] *)
+Lemma assign_one (key node : str) w x e (w2 : world) :
+  node ≠ [] →
+  i_alloc (w_ipam w) !! x = Some e → e_key e = key →
+  (w_cloud w !! x = None ∨ w_cloud w !! x = Some node) →
+  log_wf w → cloud_alloc w →
+  let w1 := if w_provider w then cloud_assign w x node else w in
+  w_cloud w2 = w_cloud w1 → w_cloudlog w2 = w_cloudlog w1 → w_provider w2 = w_provider w →
+  (∃ e2, i_alloc (w_ipam w2) !! x = Some e2 ∧ e_key e2 = key ∧ e_node e2 = node) →
+  (∀ y, y ≠ x → i_alloc (w_ipam w2) !! y = i_alloc (w_ipam w) !! y) →
+  brel key node w w2 ∧ log_wf w2 ∧ cloud_alloc w2 ∧ (w_provider w = true → w_cloud w2 !! x = Some node).
+Proof.
+  intros Hnode He Hk Hx HL HA w1 EC EL EP (e2 & He2 & Hk2 & Hn2) Hoth.
+  assert (∀ y, i_alloc (w_ipam w2) !! y = i_alloc (w_ipam w) !! y ∨
+        ∃ e', i_alloc (w_ipam w2) !! y = Some e' ∧ e_key e' = key ∧ e_node e' = node ∧
+              ∀ e, i_alloc (w_ipam w) !! y = Some e → e_key e = key) as HAl.
+  { intros y. destruct (decide (y = x)) as [->|Hne]; [|left; by apply Hoth].
+    right. exists e2. split_and!; try done. intros e0 He0. congruence. }
+  unfold w1 in *. clear w1. destruct (w_provider w) eqn:Ep; cbn [cloud_assign w_cloud w_cloudlog] in EC, EL.
+  - split_and!.
+    + split_and!; [congruence|done|]. intros y. rewrite EC. destruct (decide (y = x)) as [->|Hne].
+      * rewrite lookup_insert. destruct Hx as [Hx|Hx]; [right; by split_and!|left; symmetry; exact Hx].
+      * left. by apply lookup_insert_ne.
+    + unfold log_wf. rewrite EC, EL. by apply (log_wf_assign w x node).
+    + intros y n. rewrite EC. destruct (decide (y = x)) as [->|Hne].
+      * rewrite lookup_insert. intros [= <-]. by exists e2.
+      * rewrite lookup_insert_ne by done. rewrite Hoth by done. apply HA.
+    + intros _. rewrite EC. apply lookup_insert.
+  - split_and!; [| | |done].
+    + split_and!; [congruence|done|]. intros y. left. by rewrite EC.
+    + unfold log_wf. by rewrite EC, EL.
+    + intros y n. rewrite EC. destruct (decide (y = x)) as [->|Hne].
+      * intros Hc. destruct Hx as [Hx|Hx]; [congruence|]. rewrite Hx in Hc. injection Hc as <-. by exists e2.
+      * rewrite Hoth by done. apply HA.
+Qed.
+
+Lemma assign_loop_cloud (key node : str) a reused fl : a_node a = node → node ≠ [] → f_update fl = None →
+  ∀ ips w idx ridx w' r,
+  assign_loop w key node a ips reused idx ridx fl = (w', r) →
+  Inv2 (w_ipam w) →
+  (∀ x, x ∈ ips → ∃ e, i_alloc (w_ipam w) !! x = Some e ∧ e_key e = key ∧ (existsb (N.eqb x) reused = false → e_node e = node)) →
+  (∀ y e, i_alloc (w_ipam w) !! y = Some e → e_key e = key → w_cloud w !! y = None ∨ w_cloud w !! y = Some node) →
+  log_wf w → cloud_alloc w →
+  brel key node w w' ∧ log_wf w' ∧ cloud_alloc w' ∧
+  (r = SOk → w_provider w = true → ∀ x, x ∈ ips → w_cloud w' !! x = Some node).
+Proof.
+  intros Han Hnode Hfu. induction ips as [|x rest IH]; intros w idx ridx w' r H Hi Hips Hkn HL HA; cbn [assign_loop] in H.
+  { inversion H; subst. split_and!; [apply brel_refl|done|done|]. intros _ _ x Hx. by apply elem_of_nil in Hx. }
+  destruct (w_provider w && bool_decide (f_cloud fl = Some idx)) eqn:Ef.
+  { inversion H; subst. split_and!; [apply brel_refl|done|done|done]. }
+  destruct (Hips x) as (e & He & Hk & Hfresh); [by left|].
+  pose proof (Hkn x e He Hk) as Hx.
+  set (w1 := if w_provider w then cloud_assign w x node else w) in *.
+  assert (w_ipam w1 = w_ipam w ∧ w_provider w1 = w_provider w) as [Ei1 Ep1] by (unfold w1; by destruct (w_provider w) eqn:E0).
+  (* the state the loop continues from *)
+  assert (∃ w2 idx' ridx', assign_loop w2 key node a rest reused idx' ridx' fl = (w', r) ∧ Inv2 (w_ipam w2) ∧
+            w_cloud w2 = w_cloud w1 ∧ w_cloudlog w2 = w_cloudlog w1 ∧ w_provider w2 = w_provider w ∧
+            (∃ e2, i_alloc (w_ipam w2) !! x = Some e2 ∧ e_key e2 = key ∧ e_node e2 = node) ∧
+            (∀ y, y ≠ x → i_alloc (w_ipam w2) !! y = i_alloc (w_ipam w) !! y)) as (w2 & idx' & ridx' & H2 & Hi2 & EC & EL & EP & Hx2 & Hoth).
+  { destruct (existsb (N.eqb x) reused) eqn:Ex.
+    - rewrite Hfu in H. rewrite bool_decide_eq_false_2 in H by done.
+      pose proof (update_attr_ok (w_ipam w1) key x a e) as Hok. rewrite Ei1 in Hok. specialize (Hok Hi He Hk).
+      pose proof (inv2_update_attr (w_ipam w1) key x a false) as Hi'. rewrite Ei1 in Hi'. specialize (Hi' Hi).
+      rewrite Ei1 in H.
+      destruct (update_attr (w_ipam w) key x a false) as [i' ra] eqn:Eu. cbn [fst snd] in *. subst ra.
+      apply update_attr_spec in Eu as [(_ & e0 & He0 & Hk0 & Hal & _)|[? _]]; [|done].
+      exists (set_ipam w1 i'), (S idx), (S ridx). split_and!; try done; cbn [set_ipam w_ipam].
+      + eexists. rewrite Hal, lookup_insert. split_and!; [reflexivity|done|done].
+      + intros y Hne. rewrite Hal. by apply lookup_insert_ne.
+    - exists w1, (S idx), ridx. split_and!; try done; rewrite ?Ei1; try done.
+      exists e. split_and!; try done. by apply Hfresh. }
+  destruct (assign_one key node w x e w2 Hnode He Hk Hx HL HA EC EL EP Hx2 Hoth) as (Hb1 & HL2 & HA2 & Hon).
+  destruct Hx2 as (e2 & He2 & Hk2 & Hn2).
+  apply IH in H2 as (Hb2 & HL' & HA' & Hok); try done.
+  - split_and!; [by eapply brel_trans|done|done|].
+    intros -> Hp y Hy. specialize (Hok eq_refl). rewrite EP in Hok. specialize (Hok Hp).
+    apply elem_of_cons in Hy as [->|Hy]; [|by apply Hok].
+    destruct Hb2 as (_ & _ & C2). destruct (C2 x) as [E|(_ & _ & E)]; [|done]. rewrite E. by apply Hon.
+  - intros y Hy. destruct (decide (y = x)) as [->|Hne]; [by exists e2|].
+    rewrite (Hoth y Hne). apply Hips. by right.
+  - intros y ey Hey Hky. destruct Hb1 as (_ & _ & C1).
+    assert (w_cloud w !! y = None ∨ w_cloud w !! y = Some node) as Hy.
+    { destruct (decide (y = x)) as [->|Hne]; [done|]. rewrite (Hoth y Hne) in Hey. by eapply Hkn. }
+    destruct (C1 y) as [E|(_ & _ & E)]; [by rewrite E|by right].
+Qed.
+
+(** the allocation step of Bind only adds entries [mk_entry key a ..] at free IPs *)
+Lemma bind_alloc_cloud w key node rss slots a o fl w1 oips :
+  Inv2 (w_ipam w) → (rss ≠ [] → slots = by_key_ranges (w_ipam w) key rss) →
+  bind_alloc w key node rss slots a o fl = Some (w1, oips) →
+  ∃ i1, w1 = set_ipam w i1 ∧ Inv2 i1 ∧
+    (∀ y, i_alloc i1 !! y = i_alloc (w_ipam w) !! y ∨
+          (i_alloc (w_ipam w) !! y = None ∧ i_alloc i1 !! y = Some (mk_entry key a false (i_clock (w_ipam w))))) ∧
+    (∀ ips, oips = Some ips → ∀ x, x ∈ ips →
+       x ∈ somes slots ∨
+       (i_alloc (w_ipam w) !! x = None ∧ i_alloc i1 !! x = Some (mk_entry key a false (i_clock (w_ipam w))))).
+Proof.
+  intros HI Hslots H. unfold bind_alloc in H. cbv zeta in H.
+  assert (∀ v, Some (w, v) = Some (w1, oips) → v = None ∨ v = Some (somes slots) →
+    ∃ i1, w1 = set_ipam w i1 ∧ Inv2 i1 ∧
+    (∀ y, i_alloc i1 !! y = i_alloc (w_ipam w) !! y ∨
+          (i_alloc (w_ipam w) !! y = None ∧ i_alloc i1 !! y = Some (mk_entry key a false (i_clock (w_ipam w))))) ∧
+    (∀ ips, oips = Some ips → ∀ x, x ∈ ips →
+       x ∈ somes slots ∨
+       (i_alloc (w_ipam w) !! x = None ∧ i_alloc i1 !! x = Some (mk_entry key a false (i_clock (w_ipam w)))))) as Hsame.
+  { intros v Hv Hvv. inversion Hv; subst. exists (w_ipam w1). split_and!; [by rewrite set_ipam_self|done|by left|].
+    intros ips Hips x Hx. left. destruct Hvv as [?|Hvv]; congruence. }
+  match type of H with (if ?X then _ else _) = _ => destruct X eqn:Eneed end; [|apply (Hsame _ H); by right].
+  destruct (w_nodes w !! node) as [nip|]; [|apply (Hsame _ H); by left].
+  destruct (node_subnet (w_ipam w) nip) as [sn|]; [|apply (Hsame _ H); by left].
+  match type of H with (match ?X with [] => _ | _ :: _ => _ end) = _ => destruct X as [|rs0 missing'] eqn:Emiss end.
+  - destruct (alloc_in_subnet (w_ipam w) key sn a (o_choice o) (bool_decide (f_store fl = Some 0%nat))) as [[i' ra] ox] eqn:Ea.
+    pose proof (inv2_alloc_in_subnet (w_ipam w) key sn a (o_choice o) (bool_decide (f_store fl = Some 0%nat)) HI) as HI'.
+    rewrite Ea in HI'. simpl in HI'.
+    apply alloc_in_subnet_spec in Ea as [(-> & x & -> & Hx & _ & Hal & _)|(Hne & -> & ->)].
+    + inversion H; subst; clear H. exists i'.
+      assert (i_alloc (w_ipam w) !! x = None) as Hnone by (destruct HI as [HI _]; by apply (inv_disj _ HI)).
+      split_and!; try done.
+      * intros y. rewrite Hal. destruct (decide (y = x)) as [->|Hne]; [|left; by apply lookup_insert_ne].
+        right. by rewrite lookup_insert.
+      * intros ips Hips y Hy. inversion Hips; subst. apply elem_of_list_singleton in Hy as ->. right.
+        by rewrite Hal, lookup_insert.
+    + destruct ra; try done; apply (Hsame _ H); by left.
+  - destruct (alloc_ranges (w_ipam w) key sn (rs0 :: missing') a (f_store fl)) as [[i' ra] fresh] eqn:Ea.
+    pose proof (inv2_alloc_ranges (w_ipam w) key sn (rs0 :: missing') a (f_store fl) HI) as HI'.
+    rewrite Ea in HI'. simpl in HI'.
+    assert (rss ≠ []) as Hrss.
+    { intros ->. destruct slots; discriminate Emiss. }
+    specialize (Hslots Hrss).
+    apply alloc_ranges_spec in Ea as [(-> & _ & _ & Hfresh & Hal & _)|(Hne & _)]; [| |by destruct HI].
+    + inversion H; subst w1 oips; clear H. exists i'.
+      assert (∀ y, y ∈ fresh → i_alloc (w_ipam w) !! y = None) as Hnone.
+      { intros y Hy. destruct HI as [HI _]. apply (inv_disj _ HI). by apply Hfresh. }
+      split_and!; try done.
+      * intros y. rewrite Hal. destruct (bool_decide (y ∈ fresh)) eqn:Ey; [|by left].
+        apply bool_decide_eq_true in Ey. right. split; [by apply Hnone|done].
+      * intros ips Hips y Hy. inversion Hips; subst ips; clear Hips. fold (somes (by_key_ranges i' key rss)) in Hy.
+        apply elem_of_somes in Hy. destruct (by_key_ranges_keyed _ _ _ _ Hy) as (e & He & Hk).
+        rewrite Hal in He. destruct (bool_decide (y ∈ fresh)) eqn:Ey.
+        -- right. apply bool_decide_eq_true in Ey. split; [by apply Hnone|]. by rewrite Hal, bool_decide_eq_true_2.
+        -- left. apply elem_of_somes. rewrite Hslots.
+           eapply by_key_ranges_old; [|exact Hy|by exists e].
+           intros z ez Hz Hkz. rewrite Hal. destruct (bool_decide (z ∈ fresh)); eexists; done.
+    + destruct ra; try done; apply (Hsame _ H); by left.
+Qed.
+
+Lemma first_of_key_keyed i key o x : first_of_key i key o = Some (Some x) → ∃ e, i_alloc i !! x = Some e ∧ e_key e = key.
+Proof.
+  unfold first_of_key. destruct (by_key i key); destruct (o_first o) as [x0|]; try done.
+  destruct (i_alloc i !! x0) as [e|] eqn:He; [|done]. destruct (str_eqb_spec (e_key e) key); [|done].
+  intros [= <-]. by exists e.
+Qed.
+
+Lemma bind_cloud w ns name uid (node : str) o fl w' r :
+  CInv w → uid ≠ [] → node ≠ [] → f_update fl = None → k3_free w ns name node →
+  bind_section true true w ns name uid node o fl = (w', r) →
+  w' = w ∨
+  ∃ l, w_lister w !! (ns, name) = Some l ∧
+    brel (pod_key l) node w w' ∧ log_wf w' ∧ cloud_alloc w' ∧
+    (w_pods w' = w_pods w ∨
+     ∃ q ips, w_pods w' = <[(ns, name) := bound_pod q node ips]> (w_pods w) ∧
+              (w_provider w = true → ∀ x, x ∈ ips → w_cloud w' !! x = Some node)).
+Proof.
+  intros HC Huid Hnode Hfu Hk3 H. pose proof (ci_winv w HC) as HW. unfold bind_section in H.
+  destruct (w_lister w !! (ns, name)) as [l|] eqn:El; [|left; by inversion H].
+  cbn [andb] in H.
+  match type of H with (if negb ?X then _ else _) = _ => destruct X eqn:Ef2 end; cbn [negb] in H; [|left; by inversion H].
+  cbv zeta in H.
+  match type of H with (match ?X with Some _ => _ | None => _ end) = _ => destruct X as [slots|] eqn:Eslots end;
+    [|left; by inversion H].
+  match type of H with (if ?X then _ else _) = _ => destruct X eqn:Ef13 end; [left; by inversion H|]. clear Ef13.
+  assert (pd_ranges l ≠ [] → slots = by_key_ranges (w_ipam w) (pod_key l) (pd_ranges l)) as Hslots.
+  { intros Hr. destruct (pd_ranges l); [done|]. by inversion Eslots. }
+  assert (∀ x, x ∈ somes slots → ∃ e, i_alloc (w_ipam w) !! x = Some e ∧ e_key e = pod_key l) as Hkeyed.
+  { intros x Hx. destruct (pd_ranges l) as [|rs rss'] eqn:Er.
+    - destruct (first_of_key (w_ipam w) (pod_key l) o) as [[x0|]|] eqn:Ef; inversion Eslots; subst slots.
+      + apply elem_of_somes, elem_of_list_singleton in Hx. injection Hx as ->. by eapply first_of_key_keyed.
+      + apply elem_of_somes in Hx. by apply elem_of_nil in Hx.
+    - assert (slots = by_key_ranges (w_ipam w) (pod_key l) (rs :: rss')) as -> by congruence.
+      apply elem_of_somes in Hx. by eapply by_key_ranges_keyed. }
+  clear Eslots.
+  set (a := {| a_policy := policy_of l; a_node := node; a_uid := pd_uid l |}) in *.
+  change (match bind_alloc w (pod_key l) node (pd_ranges l) slots a o fl with
+          | Some (w1, Some ips) =>
+              match assign_loop w1 (pod_key l) node a ips (somes slots) 0 0 fl with
+              | (w2, SOk) =>
+                  match api_bind w2 (ns, name) uid node ips (f_bind fl =? 1) with
+                  | (w3, BindOk) => (w3, BOk ips)
+                  | (w3, BindNotFound) => (set_queue w3 (w_queue w3 ++ [l]), BErr)
+                  | (w3, BindFail) => (w3, BErr)
+                  end
+              | (w2, _) => (w2, BErr)
+              end
+          | Some (w1, None) => (w1, BErr)
+          | None => (w, BStuck)
+          end = (w', r)) in H.
+  destruct (bind_alloc w (pod_key l) node (pd_ranges l) slots a o fl) as [[w1 oips]|] eqn:Ealloc; [|left; by inversion H].
+  apply bind_alloc_cloud in Ealloc as (i1 & -> & Hi1 & Hal1 & Hips); [|apply (wi_ipam w HW)|done].
+  set (w1 := set_ipam w i1) in *.
+  assert (brel (pod_key l) node w w1) as Hb1.
+  { split_and!; [done| |intros y; by left]. intros y. cbn [w1 set_ipam w_ipam].
+    destruct (Hal1 y) as [E|[Hn E]]; [by left|]. right. eexists. split_and!; [exact E|done|done|]. intros e He. congruence. }
+  assert (log_wf w1) as HL1 by exact (ci_log w HC).
+  assert (cloud_alloc w1) as HA1.
+  { intros y n Hy. destruct (ci_alloc w HC y n Hy) as (e & He & Hn). exists e. split; [|done]. cbn [w1 set_ipam w_ipam].
+    destruct (Hal1 y) as [E|[Hnone _]]; congruence. }
+  right. exists l. split; [done|].
+  destruct oips as [ips|].
+  2:{ inversion H; subst w'; clear H. split_and!; try done. by left. }
+  specialize (Hips ips eq_refl).
+  destruct (assign_loop w1 (pod_key l) node a ips (somes slots) 0 0 fl) as [w2 r2] eqn:Eloop.
+  pose proof (assign_loop_frame _ _ _ _ _ _ _ _ _ _ _ Eloop) as (Ep2 & _).
+  apply (assign_loop_cloud (pod_key l) node a (somes slots) fl eq_refl Hnode Hfu) in Eloop as (Hb2 & HL2 & HA2 & Hon); try done.
+  2:{ intros x Hx. cbn [w1 set_ipam w_ipam]. destruct (Hips x Hx) as [Hs|[Hn E]].
+      - destruct (Hkeyed x Hs) as (e & He & Hk). exists e. split_and!; [|done|].
+        + destruct (Hal1 x) as [E|[Hnone _]]; congruence.
+        + intros Hex. rewrite (existsb_eqb_elem x _ Hs) in Hex. done.
+      - eexists. split_and!; [exact E|done|done]. }
+  2:{ intros y e. cbn [w1 set_ipam w_ipam w_cloud]. intros He Hk. destruct (w_cloud w !! y) as [n|] eqn:Ec; [|by left]. right.
+      destruct (Hal1 y) as [E|[Hnone _]].
+      - rewrite E in He. f_equal. by apply (Hk3 l y e n).
+      - destruct (ci_alloc w HC y n Ec) as (e0 & He0 & _). congruence. }
+  pose proof (brel_trans _ _ _ _ _ Hb1 Hb2) as Hb.
+  assert (w_pods w2 = w_pods w) as Epods by (by rewrite Ep2).
+  destruct r2; [|inversion H; subst w'; split_and!; try done; by left..].
+  destruct (api_bind w2 (ns, name) uid node ips (f_bind fl =? 1)) as [w3 out] eqn:Ebind.
+  apply api_bind_cases in Ebind. destruct out.
+  - destruct Ebind as (q & Hq & _ & _ & ->). inversion H; subst w'; clear H.
+    split_and!; [|exact HL2|exact HA2|].
+    + destruct Hb as (? & ? & ?). split_and!; done.
+    + right. exists q, ips. cbn [set_pods w_pods w_cloud]. rewrite Epods. split; [done|]. intros Hp. by apply Hon.
+  - destruct Ebind as [-> _]. inversion H; subst w'; clear H.
+    split_and!; [|exact HL2|exact HA2|by left].
+    destruct Hb as (? & ? & ?). split_and!; done.
+  - subst w3. inversion H; subst w'; clear H. split_and!; try done. by left.
+Qed.
+
+Lemma cinv_bind w ns name uid (node : str) o fl :
+  CInv w → uid ≠ [] → node ≠ [] → f_update fl = None → k3_free w ns name node →
+  CInv (pstep w (PBind ns name uid node o fl)).1 ∧ freed_unassigned w (pstep w (PBind ns name uid node o fl)).1 ∧ w_provider (pstep w (PBind ns name uid node o fl)).1 = w_provider w.
+Proof.
+  intros HC Huid Hnode Hfu Hk3. pose proof (ci_winv w HC) as HW. pose proof (winv_bind w ns name uid node o fl HW Huid) as HW'.
+  cbn [pstep] in *. destruct (bind_section true true w ns name uid node o fl) as [w' r] eqn:E.
+  assert ((let (w'0, b) := (w', r) in match b with BOk ips => (w'0, RIps ips) | BErr => (w'0, RErr) | BStuck => (w'0, RStuck) end).1 = w') as Efst
+    by (by destruct r).
+  rewrite Efst in *. clear Efst.
+  apply bind_cloud in E as [->|(l & El & (EP & A & C) & HL' & HA' & Hpods)]; try done; [by apply cinv_same|].
+  destruct (wi_lister w HW _ l El) as [_ Wl].
+  split; [split|split; [|done]]; try done.
+  - rewrite EP. intros Hp k p x Hk Hlb Hx.
+    assert (∀ k0 p0, w_pods w !! k0 = Some p0 → live_bound p0 → x ∈ pd_ips p0 → w_cloud w' !! x = Some (pd_node p0)) as Hold.
+    { intros k0 p0 Hk0 Hlb0 Hx0. pose proof (ci_live w HC Hp k0 p0 x Hk0 Hlb0 Hx0) as Hc.
+      destruct (C x) as [Ec|(_ & Hn & _)]; congruence. }
+    destruct Hpods as [Epods|(q & ips & Epods & Hon)].
+    + rewrite Epods in Hk. by eapply Hold.
+    + rewrite Epods in Hk. destruct (decide (k = (ns, name))) as [->|Hne].
+      * rewrite lookup_insert in Hk. injection Hk as <-. cbn [bound_pod pd_node pd_ips] in *. by apply Hon.
+      * rewrite lookup_insert_ne in Hk by done. by eapply Hold.
+  - intros x e' k He' Hk. destruct (A x) as [Ea|(e1 & He1 & Hk1 & _)].
+    + rewrite Ea in He'. by eapply (ci_pfx w HC).
+    + exfalso. apply (pool_prefix_not_pod_key k l Wl). congruence.
+  - rewrite EP. intros Hp. rewrite <- (ci_noprov w HC Hp). apply map_eq. intros y.
+    destruct (C y) as [Ec|(Hp' & _)]; congruence.
+  - intros x e He Hch. exfalso. destruct (A x) as [Ea|(e1 & He1 & Hk1 & _ & Hold)].
+    + rewrite Ea, He in Hch. done.
+    + rewrite He1 in Hch. apply Hch. rewrite Hk1. symmetry. by apply Hold.
+Qed.
+
+(** * the invariant holds initially and is kept by every step of a [wf_c10] history *)
+Lemma cinv_init provider nodes : CInv (world0 provider nodes).
+Proof.
+  split; cbn [world0 w_cloud w_cloudlog w_provider w_pods w_ipam].
+  - apply winv_init.
+  - done.
+  - intros x n Hx. cbn [world0 w_cloud] in Hx. by rewrite lookup_empty in Hx.
+  - intros _ k p x Hk. cbn [world0 w_pods] in Hk. by rewrite lookup_empty in Hk.
+  - intros x e k He. cbn [world0 w_ipam ipam0 i_alloc] in He. by rewrite lookup_empty in He.
+  - done.
+Qed.
+
+Lemma cinv_step_both w o : CInv w → wf_c10 w o → CInv (pstep w o).1 ∧ freed_unassigned w (pstep w o).1 ∧ w_provider (pstep w o).1 = w_provider w.
+Proof.
+  intros HC [Hwf Hc]. destruct o as [e|key nodes o fl|ns name uid node o fl|n o oun fl|ip o ocl fl|k ip ocl fl|key fl|op|conf].
+  - cbn [pstep fst]. by apply cinv_env.
+  - by apply cinv_filter.
+  - destruct Hc as (Hnode & Hfu & Hk3). by apply cinv_bind.
+  - by apply cinv_event.
+  - by apply cinv_resync.
+  - by apply cinv_api_release.
+  - by apply cinv_sync_pod.
+  - destruct op; try done. destruct Hwf as [-> Hkl]. by apply cinv_configure.
+  - by apply cinv_restart.
+Qed.
+
+Lemma cinv_step w o : CInv w → wf_c10 w o → CInv (pstep w o).1.
+Proof. intros HC Hwf. by destruct (cinv_step_both w o HC Hwf) as (? & ? & ?). Qed.
+
+Lemma provider_step w o : CInv w → wf_c10 w o → w_provider (pstep w o).1 = w_provider w.
+Proof. intros HC Hwf. by destruct (cinv_step_both w o HC Hwf) as (? & ? & ?). Qed.
+
+Lemma freed_unassigned_step w o : CInv w → wf_c10 w o → w_provider w = true → freed_unassigned w (pstep w o).1.
+Proof. intros HC Hwf _. by destruct (cinv_step_both w o HC Hwf) as (? & ? & ?). Qed.
+
+Lemma cinv_run ops : ∀ w, CInv w → wf_c10_hist w ops → CInv (prun w ops).
+Proof.
+  induction ops as [|o ops IH]; intros w HC Hh; [done|]. destruct Hh as [Ho Hh].
+  cbn [prun fold_left]. apply IH; [by apply cinv_step|done].
+Qed.
+
+Lemma prun_app w ops1 ops2 : prun w (ops1 ++ ops2) = prun (prun w ops1) ops2.
+Proof. unfold prun. apply fold_left_app. Qed.
+
+Lemma wf_c10_hist_app w ops1 ops2 : wf_c10_hist w (ops1 ++ ops2) ↔ wf_c10_hist w ops1 ∧ wf_c10_hist (prun w ops1) ops2.
+Proof.
+  revert w. induction ops1 as [|o ops1 IH]; intros w; cbn [app wf_c10_hist]; [unfold prun; cbn; tauto|].
+  rewrite IH. unfold prun. cbn [fold_left]. tauto.
+Qed.
+
+Lemma provider_run ops : ∀ w, CInv w → wf_c10_hist w ops → w_provider (prun w ops) = w_provider w.
+Proof.
+  induction ops as [|o ops IH]; intros w HC Hh; [done|]. destruct Hh as [Ho Hh].
+  cbn [prun fold_left]. rewrite <- (provider_step w o HC Ho). apply IH; [by apply cinv_step|done].
+Qed.
+
+Print Assumptions cinv_init.
+Print Assumptions cinv_step.
+Print Assumptions cinv_run.
+Print Assumptions freed_unassigned_step.
